@@ -406,13 +406,27 @@ func (x *Exec) verifAPI(name string, fn *ssa.Function, args []Value) (Value, boo
 		if p.Obj.ReadOnly {
 			x.check(s.Eq(n, x.c64(0)), "memory", "native routine writes into read-only object")
 		}
-		maxN := x.maxLen(p, n, 1)
-		for i := 0; i < maxN; i++ {
-			var nv *smt.Term = x.junk(8)
-			if !n.IsConst() {
-				nv = s.Ite(s.Ult(x.c64(int64(i)), n), nv, x.byteIdx(p, i))
+		if p.Off.IsConst() && n.IsConst() {
+			for i := 0; i < int(n.Val); i++ {
+				x.storeLeaf(p.Obj, int(p.Off.Val)+i, 1, x.junk(8))
 			}
-			x.storeLeafP(p, i, 1, nv)
+			return nil, true
+		}
+		// symbolic extent: over-approximate by havocking every byte the write could reach
+		// (interval bounds of offset and length); bytes below the lowest possible offset are untouched
+		oi, ni := x.interval(p.Off), x.interval(n)
+		lo, hi := int(oi.lo), p.Obj.Size
+		if oi.hi < uint64(p.Obj.Size) && ni.hi < uint64(p.Obj.Size) && int(oi.hi+ni.hi) < hi {
+			hi = int(oi.hi + ni.hi)
+		}
+		if oi.lo > uint64(p.Obj.Size) {
+			lo = p.Obj.Size
+		}
+		for i := lo; i < hi; i++ {
+			k := x.c64(int64(i))
+			in := s.BAnd(s.Ule(p.Off, k), s.Ult(k, end))
+			old := x.asTerm(x.loadLeaf(p.Obj, i, 1, lkInt))
+			x.storeLeaf(p.Obj, i, 1, s.Ite(in, x.junk(8), old))
 		}
 		return nil, true
 	case "InPool":
